@@ -205,3 +205,35 @@ Definition check_C04g (gi:ginput) (o:output) : bool :=
 Definition corr_C04g (gi:ginput) (o:output) : bool :=
   Spec.C03.ndeps_okb (g_graph gi) && corr_C04 (to_input gi) o.
 Definition inclass_C04g (gi:ginput) : bool := consistent (to_input gi).
+
+(* ================================================================== online and offline under one decision tree *)
+From AV Require Export Model.C04Unified.
+
+Definition sql_steps (u:uinput) : list step :=
+  mk_steps_sql (g_graph (u_gi u)) (g_msteps (u_gi u)) (Model.Heads.start (vrows (g_db0 (u_gi u)))).
+
+Definition C04u_holds (u:uinput) (o:output) : Prop :=
+  if u_as_sql u then
+    (* --sql: whatever the settings and wherever the run fails, the database is not touched: no effect, no version row,
+       no version table *)
+    (o_raised o = true <-> fidx false (sql_steps u) <> None) /\
+    (forall x, In x (effs (o_db o)) <-> In x (effs (g_db0 (u_gi u)))) /\
+    (forall x, In x (vrows (o_db o)) <-> In x (vrows (g_db0 (u_gi u)))) /\
+    vt (o_db o) = vt (g_db0 (u_gi u))
+  else C04g_holds (u_gi u) o.
+
+Definition check_C04u (u:uinput) (o:output) : bool :=
+  if u_as_sql u then
+    Bool.eqb (o_raised o) (is_some (fidx false (sql_steps u))) &&
+    seteqN (effs (o_db o)) (effs (g_db0 (u_gi u))) && seteqN (vrows (o_db o)) (vrows (g_db0 (u_gi u))) &&
+    Bool.eqb (vt (o_db o)) (vt (g_db0 (u_gi u)))
+  else check_C04g (u_gi u) o.
+
+Definition corr_C04u (u:uinput) (o:output) : bool :=
+  if u_as_sql u then
+    let m := run_u u in
+    Spec.C03.ndeps_okb (g_graph (u_gi u)) &&
+    Bool.eqb (o_raised m) (o_raised o) && Bool.eqb (vt (o_db m)) (vt (o_db o)) &&
+    seteqN (vrows (o_db m)) (vrows (o_db o)) && seteqN (effs (o_db m)) (effs (o_db o))
+  else corr_C04g (u_gi u) o.
+Definition inclass_C04u (u:uinput) : bool := u_as_sql u || inclass_C04g (u_gi u).
